@@ -13,7 +13,8 @@
 //! 9002 accepts but never reads (unread data), 9003 split stream: reader task +
 //! writer task pushing a chunk every tick; UDP 9100 echo, member of multicast
 //! group 239.1.1.1; a background ticker), n1 = its client (one task per server
-//! port, plus a reconnector that tries port 9000 every few ticks), n2 / n3 =
+//! port, plus a reconnector that tries port 9000 every few ticks; port 9005: the server
+//! is the writer and the client never reads), n2 / n3 =
 //! an uninvolved pair doing TCP + UDP ping-pong.
 //!
 //! Observations: `evs` per event (step result; for crash / bounce / probe a
@@ -274,6 +275,36 @@ async fn server(c: Ctx) -> turmoil::Result {
             }
         });
     }
+    // 9005: the ACCEPTING side is the writer: pushes records as fast as the window allows to a peer
+    // that never reads, i.e. it is soon parked in write_all on a full window
+    {
+        let c = c.clone();
+        tokio::task::spawn_local(async move {
+            let _g = c.guard("push");
+            let l = match TcpListener::bind(any(9005)).await {
+                Ok(l) => l,
+                Err(e) => return c.log("push", "bind", json!(9005), json!(kind(&e))),
+            };
+            let _o = c.obj(json!(["listener", 9005]));
+            c.log("push", "bind", json!(9005), json!("ok"));
+            loop {
+                let Ok((mut s, from)) = l.accept().await else { break };
+                let c2 = c.clone();
+                tokio::task::spawn_local(async move {
+                    let _g = c2.guard("push_conn");
+                    let _o = c2.stream_obj(&s, "whole");
+                    c2.log("push", "accepted", json!(from.port()), Value::Null);
+                    let mut k = 0u64;
+                    loop {
+                        if let Err(e) = s.write_all(&[k as u8; 8]).await {
+                            return c2.log("push", "end", json!(kind(&e)), json!(from.port()));
+                        }
+                        k += 1;
+                    }
+                });
+            }
+        });
+    }
     // UDP 9100 echo + multicast membership
     {
         let c = c.clone();
@@ -317,7 +348,7 @@ async fn client(c: Ctx) -> turmoil::Result {
                 Err(e) => return c.log("A", "connect", json!(kind(&e)), Value::Null),
             };
             let _o = c.stream_obj(&s, "whole");
-            c.log("A", "connect", json!("ok"), Value::Null);
+            c.log("A", "connect", json!("ok"), json!(s.local_addr().unwrap().port()));
             let mut k = 0u64;
             loop {
                 if let Err(e) = s.write_all(&[k as u8; 4]).await {
@@ -360,7 +391,7 @@ async fn client(c: Ctx) -> turmoil::Result {
                 Err(e) => return c.log("C", "connect", json!(kind(&e)), Value::Null),
             };
             let _o = c.stream_obj(&s, "whole");
-            c.log("C", "connect", json!("ok"), Value::Null);
+            c.log("C", "connect", json!("ok"), json!(s.local_addr().unwrap().port()));
             for k in 0..3u8 {
                 if let Err(e) = s.write_all(&[k; 8]).await {
                     return c.log("C", "end", json!(kind(&e)), json!("write"));
@@ -384,7 +415,7 @@ async fn client(c: Ctx) -> turmoil::Result {
                 Err(e) => return c.log("D", "connect", json!(kind(&e)), Value::Null),
             };
             let _o = c.stream_obj(&s, "whole");
-            c.log("D", "connect", json!("ok"), Value::Null);
+            c.log("D", "connect", json!("ok"), json!(s.local_addr().unwrap().port()));
             let mut total = 0usize;
             let mut buf = [0u8; 64];
             loop {
@@ -462,6 +493,22 @@ async fn client(c: Ctx) -> turmoil::Result {
             }
         });
     }
+    // P: connects to the push port and never reads: the window fills with unread data
+    {
+        let c = c.clone();
+        tokio::task::spawn_local(async move {
+            let _g = c.guard("P");
+            tokio::time::sleep(c.tick * 2).await;
+            let s = match TcpStream::connect((srv, 9005)).await {
+                Ok(s) => s,
+                Err(e) => return c.log("P", "connect", json!(kind(&e)), Value::Null),
+            };
+            let _o = c.stream_obj(&s, "whole-unread");
+            c.log("P", "connect", json!("ok"), json!(s.local_addr().unwrap().port()));
+            std::future::pending::<()>().await;
+            drop(s);
+        });
+    }
     // F: reconnector
     {
         let c = c.clone();
@@ -473,6 +520,7 @@ async fn client(c: Ctx) -> turmoil::Result {
                 c.log("F", "try", json!(k), Value::Null);
                 match tokio::time::timeout(c.tick * 3, TcpStream::connect((srv, 9000))).await {
                     Ok(Ok(mut s)) => {
+                        let _o = c.stream_obj(&s, "whole");
                         let r = async {
                             s.write_all(&[7u8; 4]).await?;
                             let mut b = [0u8; 4];
